@@ -177,6 +177,35 @@ func (rn *runner) GenOp(r *vh.Rand, i int) string {
 	if r.Chance(4) {
 		return fmt.Sprintf("retry %d %s %s", 1+r.Intn(2), hx(r.Bytes(r.Intn(21))), hx(r.Bytes(1+r.Intn(60))))
 	}
+	if r.Chance(14) { // the uQUIC Initial serialisation glue (client side)
+		pnLen := 1 + r.Intn(4)
+		pn := rn.genPN(r, &rn.lNext[0], rn.lHighest[1], pnLen)
+		id := rn.nextID
+		rn.nextID++
+		rn.ids = append(rn.ids, id)
+		var pl []byte
+		if r.Chance(65) {
+			pl = r.Bytes(r.Intn(6)) // tiny: a lone PING, or nothing at all
+		} else {
+			pl = r.Bytes(r.Intn(60))
+		}
+		token := "-"
+		if r.Chance(25) {
+			token = hx(r.Bytes(1 + r.Intn(40)))
+		}
+		packetSize := 0
+		switch r.Pick(65, 30, 5) {
+		case 1:
+			packetSize = int(r.Range(30, 160))
+		case 2:
+			packetSize = 1200
+		}
+		udpMin := int(r.Range(1, 120))
+		if r.Chance(8) {
+			udpMin = 0 // default 1200
+		}
+		return fmt.Sprintf("useal %d %s %s %s %d %d %s %d %d", id, hx(r.Bytes(r.Intn(21))), hx(r.Bytes(r.Intn(21))), token, pnLen, pn, hx(pl), packetSize, udpMin)
+	}
 	switch r.Pick(22, 22, 28, 28) {
 	case 0: // long seal
 		dir := r.Intn(2)
@@ -354,6 +383,34 @@ func (rn *runner) Exec(op string) string {
 		out := quic.VerifEncryptPacket(raw, sealer, pn, protocol.ByteCount(len(hdr)), protocol.ByteCount(pnLen))
 		rn.pkts[id] = &pkt{long: true, dir: dir, pn: int64(pn), data: append([]byte{}, out...)}
 		return res + "pkt=" + hx(out)
+	case "useal":
+		rn.ensureL()
+		id := int(n(1))
+		pnLen, pn := protocol.PacketNumberLen(n(5)), protocol.PacketNumber(n(6))
+		if pnLen < 1 || pnLen > 4 {
+			return "skip"
+		}
+		mkHdr := func() *wire.ExtendedHeader {
+			return &wire.ExtendedHeader{
+				Header: wire.Header{
+					Type: protocol.PacketTypeInitial, Version: rn.ver,
+					DestConnectionID: protocol.ParseConnectionID(unhx(s(2))),
+					SrcConnectionID:  protocol.ParseConnectionID(unhx(s(3))),
+					Token:            unhx(s(4)),
+				},
+				PacketNumber: pn, PacketNumberLen: pnLen,
+			}
+		}
+		tmpl, err := mkHdr().Append(nil, rn.ver)
+		if err != nil {
+			return "E:append"
+		}
+		dg, err := quic.VerifUInitialDatagram(rn.lsealer[0], mkHdr(), unhx(s(7)), int(n(8)), int(n(9)), rn.ver)
+		if err != nil {
+			return "tmpl=" + hx(tmpl) + " E:pack"
+		}
+		rn.pkts[id] = &pkt{long: true, dir: 0, pn: int64(pn), data: dg}
+		return "tmpl=" + hx(tmpl) + " dgram=" + hx(dg)
 	case "lopen":
 		rn.ensureL()
 		p := rn.pkts[int(n(1))]
